@@ -344,31 +344,32 @@ fn step(ctx: &mut Ctx, id: &str, t: &[&str]) -> String {
             // Ok/Err, peak allocation, whether re-encoding reproduces the input
             let bytes = ctx.blobs[t[2]].clone();
             let slot = t.get(3).map(|s| s.to_string());
+            // the allocation window covers the decoder call only (not re-encoding, not the harness's own maps)
             let base = crate::peak_reset();
+            let mut mem = 0usize;
             let r = match t[1] {
-                "prover" => Prover::try_from_bytes(&bytes[..]).map(|p| {
+                "prover" => { let d = Prover::try_from_bytes(&bytes[..]); mem = crate::peak_since(base); d.map(|p| {
                     let same = p.to_bytes() == bytes;
                     if let Some(s) = &slot { ctx.provers.insert(s.clone(), p); }
                     same
-                }),
-                "verifier" => Verifier::try_from_bytes(&bytes[..]).map(|v| {
+                }) },
+                "verifier" => { let d = Verifier::try_from_bytes(&bytes[..]); mem = crate::peak_since(base); d.map(|v| {
                     let same = v.to_bytes() == bytes;
                     if let Some(s) = &slot { ctx.verifiers.insert(s.clone(), v); }
                     same
-                }),
-                "proof" => Proof::from_slice(&bytes).map_err(Error::from).map(|p| {
+                }) },
+                "proof" => { let d = Proof::from_slice(&bytes); mem = crate::peak_since(base); d.map_err(Error::from).map(|p| {
                     let same = p.to_bytes()[..] == bytes[..];
                     if let Some(s) = &slot { ctx.proofs.insert(s.clone(), (p, Vec::new())); }
                     same
-                }),
-                "pp" => PublicParameters::from_slice(&bytes).map(|p| {
+                }) },
+                "pp" => { let d = PublicParameters::from_slice(&bytes); mem = crate::peak_since(base); d.map(|p| {
                     let same = p.to_var_bytes() == bytes;
                     if let Some(s) = &slot { ctx.pps.insert(s.clone(), p); }
                     same
-                }),
+                }) },
                 _ => Err(Error::NotEnoughBytes),
             };
-            let mem = crate::peak_since(base);
             match r {
                 Ok(same) => format!("OK canonical={} mem={} len={}", same, mem, bytes.len()),
                 Err(e) => format!("ERR {} mem={} len={}", err_kind(&e), mem, bytes.len()),
